@@ -9,6 +9,7 @@ import re
 LABEL_RE = re.compile(r"^[A-Za-z_][A-Za-z0-9_]*:?$")
 MNEMO_RE = re.compile(r"^[A-Za-z][A-Za-z0-9]*([:./][A-Za-z0-9]+)*$")
 WS = " \t"
+END_RE = re.compile(r"^[ \t]+END\b[^\n]*(\n|$)", re.I | re.M)
 # mnemonics after which a colon may be added to / removed from a column-1 label without the label being
 # the *name operand* of the statement (EQU, SET, MACRO, STRUCT, ... take their name from the label field)
 COLON_OK = {"NOP", "DB", "DW", "DD", "DC.B", "DC.W", "DC.L", "DS.B", "DS.W", "DS.L", "BYT", "FCB", "FDB", "FCC",
@@ -180,6 +181,14 @@ def apply(src, edits, flags):
     body = "\n".join(out) + ("\n" if trailing_nl or True else "")
     files = {}
     main = body
+    tail = ""
+    if flags.get("macro") or flags.get("include"):
+        # an END statement and whatever follows it stay behind the wrapper (END inside the wrapper would end the
+        # assembly before the ENDM / the rest of the including file is read, which is a different program text)
+        m = END_RE.search(body)
+        if m:
+            body, tail = body[:m.start()], body[m.start():]
+            main = body
     if flags.get("macro"):
         main = "wrapzz0\tmacro\n" + body + "\tendm\n\twrapzz0\n"
         stats["kinds"].add("macro")
@@ -187,6 +196,7 @@ def apply(src, edits, flags):
         files["wrapbody.inc"] = main
         main = "\tinclude \"wrapbody.inc\"\n"
         stats["kinds"].add("include")
+    main += tail
     if flags.get("crlf"):
         main = main.replace("\n", "\r\n")
         files = {k: v.replace("\n", "\r\n") for k, v in files.items()}
